@@ -94,6 +94,28 @@ ATOMS = {
     "comp_twice": dict(codes=["unused_variable"], lines=["print([None for cv_{n} in range(2)], [None for cv_{n} in range(3)])"], simple=True, fix=True),
     "chained_assign": dict(codes=[], lines=["ca_{n} = cb_{n} = takes_int({n})"], simple=True),
     "pair_codes": dict(codes=[], render="pair", simple=False),
+    # fixable expressions in the HEADER of a compound statement, or nested in another scope
+    "fstring_if_header": dict(codes=["use_fstrings"], enable=["use_fstrings"], lines=["if \"<%s>\" % q == \"<w>\":", "    # body comment {n}", "    print({n})", "", "    print(p)"], simple=False, fix=True),
+    "fstring_for_header": dict(codes=["use_fstrings"], enable=["use_fstrings"], lines=["for ch_{n} in \"%s-%d\" % (q, {n}):", "    print(ch_{n})  # loop note"], simple=False, fix=True),
+    "fstring_return": dict(codes=["use_fstrings"], enable=["use_fstrings"], lines=["if p == {n}:", "    return \"%s!\" % q"], simple=False, fix=True),
+    "fstring_lambda": dict(codes=["use_fstrings"], enable=["use_fstrings"], lines=["print((lambda z: \"%s/%s\" % (z, q))({n}))"], simple=True, fix=True),
+    "fstring_in_comp": dict(codes=["use_fstrings"], enable=["use_fstrings"], lines=["print([\"%d:%s\" % (k_{n}, q) for k_{n} in range({n})])"], simple=True, fix=True),
+    "fstring_twice_equal": dict(codes=["use_fstrings"], enable=["use_fstrings"], lines=["print(\"%s\" % q, \"%s\" % q, {n})"], simple=True, fix=True),
+    "fstring_quotes": dict(codes=[], enable=["use_fstrings"], lines=["print('say \"%s\" {n}' % q)"], simple=True),
+    "fstring_backslash": dict(codes=[], enable=["use_fstrings"], lines=["print(\"tab\\t%s\\n{n}\" % q)"], simple=True),
+    "fstring_bytes": dict(codes=[], enable=["use_fstrings"], lines=["print(b\"%s {n}\" % b\"x\")"], simple=True),
+    "fstring_raw": dict(codes=[], enable=["use_fstrings"], lines=["print(r\"\\d%s {n}\" % q)"], simple=True),
+    "missing_f_if_header": dict(codes=["missing_f"], enable=["missing_f"], lines=["if \"{{q}} {n}\" != \"\":", "    print(p)  # note {n}"], simple=False, fix=True),
+    "unused_then_blank": dict(codes=["unused_variable"], lines=["unused_{n} = {n}", "", "# a comment after the blank line {n}", "print(p)"], simple=False, fix=True),
+    "unused_then_comment": dict(codes=["unused_variable"], lines=["unused_{n} = takes_int({n})", "        # deeper comment {n}", "print(p)"], simple=False, fix=True),
+    "unused_noqa": dict(codes=["unused_variable"], lines=["unused_{n} = {n}  # noqa: F841"], simple=True, fix=True, no_compound=True),
+    "undef_type_ignore": dict(codes=["undefined_name"], lines=["print(undefined_{n})  # type: ignore[name-defined]"], simple=True),
+    "comp_nested": dict(codes=["unused_variable"], lines=["print([[None for cv_{n} in range(2)] for cw_{n} in range({n})])"], simple=True, fix=True),
+    "comp_dict": dict(codes=["unused_variable"], lines=["print({{k_{n}: None for k_{n}, v_{n} in [({n}, 2)]}})"], simple=True),
+    "comp_gen": dict(codes=["unused_variable"], lines=["print(list(None for gv_{n} in range({n})))"], simple=True, fix=True),
+    "comp_two_clauses": dict(codes=["unused_variable"], lines=["print([a_{n} for a_{n} in range(2) for b_{n} in range({n})])"], simple=True, fix=True),
+    "inner_def_default": dict(codes=["undefined_name"], lines=["def inner_{n}(", "    a=undefined_{n},", "    b={n},", "):", "    return a, b", "print(inner_{n})"], simple=False),
+    "decorated_inner": dict(codes=["undefined_name"], lines=["@undefined_deco_{n}", "def inner_{n}():", "    return {n}", "print(inner_{n})"], simple=False),
     "ml_fstring_undef": dict(codes=["undefined_name"], lines=["print(f\"\"\"head {n}", "{{undefined_{n}}}", "tail\"\"\")"], simple=False, raw_continuation=True),
     # characters that str.splitlines() treats as line ends but Python does not
     "formfeed_str": dict(codes=["undefined_name"], lines=["ff_{n} = \"a\x0cb\"", "print(ff_{n}, undefined_{n})"], simple=False),
@@ -128,7 +150,7 @@ ASYNQ_ATOMS = {
 # generated only when explicitly enabled so that the rest of the search is not drowned
 KNOWN_DEFECT_ATOMS = {"backslash", "with_multi", "ml_fstring_undef"}
 
-SKELETONS = ["asynq_fn", "missing_asynq_fn", "async_def", "plain", "only_stmt_of_if", "for_body", "try_except", "with_block", "one_line_if", "semicolon",
+SKELETONS = ["only_stmt_of_else", "only_stmt_of_except", "only_stmt_of_finally", "class_body_method", "docstring_fn", "asynq_fn", "missing_asynq_fn", "async_def", "plain", "only_stmt_of_if", "for_body", "try_except", "with_block", "one_line_if", "semicolon",
              "method", "nested", "after_comment", "after_decorator", "else_branch", "while_body"]
 
 
@@ -198,6 +220,17 @@ class Gen:
             out += ["if p:"] + _indent(lines, "    ")
             if r.chance(0.5):
                 out += ["print(p)"]
+        elif skeleton == "only_stmt_of_else":
+            name, lines = atom()
+            out += ["if p:", "    print(p)", "else:"] + _indent(lines, "    ")
+        elif skeleton == "only_stmt_of_except":
+            name, lines = atom()
+            out += ["try:", "    print(p)", "except ValueError:"] + _indent(lines, "    ")
+        elif skeleton == "only_stmt_of_finally":
+            name, lines = atom()
+            out += ["try:", "    print(p)", "finally:"] + _indent(lines, "    ")
+        elif skeleton == "docstring_fn":
+            out += ["\"\"\"Docstring of the function.", "", "    second paragraph %d\"\"\"" % self.next_n()] + atom()[1]
         elif skeleton == "for_body":
             out += ["for i_%d in range(p):" % self.next_n()]
             body = []
@@ -256,7 +289,7 @@ class Gen:
             return ["async def co%d(p: int = 3) -> None:" % k, "    if p:", "        aio_fetch(", "            p + %d" % n, "        )", "    print(p)"]
         body = []
         for _ in range(r.randint(1, 2) if skeleton != "method" else 1):
-            sk = skeleton if skeleton not in ("method", "after_decorator") else r.choice(["plain", "only_stmt_of_if", "for_body"])
+            sk = skeleton if skeleton not in ("method", "after_decorator", "class_body_method") else r.choice(["plain", "only_stmt_of_if", "for_body", "only_stmt_of_else"])
             body += self.place(sk, k)
         if r.chance(0.6):
             body += ["return p"]
@@ -266,6 +299,8 @@ class Gen:
             if body and not body[-1].startswith("return"):
                 pass
             return lines
+        if skeleton == "class_body_method":
+            return ["class Outer%d:" % k, "    limit = %d" % k, "", "    class Inner:", "        def m(self, p: int = 3, q: str = \"w\", pair: tuple = (4, 5)) -> object:"] + _indent(body, "            ")
         if skeleton == "after_decorator":
             head = ["@staticmethod"]
             return ["class D%d:" % k] + _indent(head + ["def f(p: int = 3, q: str = \"w\", pair: tuple = (4, 5)) -> object:"] + _indent(body, "    "), "    ")
@@ -280,6 +315,19 @@ class Gen:
             self.meta["features"].append("diag_on_line_1")
             self.meta["atoms"].append("undef")
             lines += ["def first_%d(): return undefined_%d" % (n, n), "", ""]
+        hv = r.below(10)
+        if not first_line_def:
+            if hv == 0:
+                self.meta["features"].append("header_comment_then_blank")
+                lines += ["# header comment", "# second header line", ""]
+            elif hv == 1:
+                self.meta["features"].append("module_docstring")
+                lines += ["\"\"\"Module docstring.\"\"\"", ""]
+            elif hv == 2:
+                self.meta["features"].append("header_comment_then_def_with_diag")
+                n = self.next_n()
+                self.meta["atoms"].append("undef")
+                lines += ["# header comment only", "def early_%d(): return undefined_%d" % (n, n), "", ""]
         lines += PRELUDE.split("\n")
         for k in range(r.randint(1, 4)):
             lines += self.function(k) + ["", ""]
